@@ -549,7 +549,37 @@ def t_mean_metric(fn, D, N, C, B, L, seed):
     return e < 1e-12, f"mean_metric({fn}) over {B} samples: {got!r} vs mean of the per-sample values {exp!r}"
 
 
-TESTS = dict(reference=t_reference, parseval=t_parseval, continuous=t_continuous, resolution=t_resolution,
+def t_small_scales(D, N, seed):
+    """(a) a small but resolvable difference (amplitude 3e-4, coefficients ~1e-3, far above the documented 1e-5 floor): the Fourier metrics
+    still equal the spatial ones (Parseval) and are positive; (b) scale-freeness of the normalized / symmetric metrics on tiny states and tiny
+    domains (c = 1e-4, L = 1e-2): no absolute epsilon may enter a quotient"""
+    import jax.numpy as jnp
+    import exponax as ex
+    M = ex.metrics
+    rng = np.random.default_rng(seed)
+    x = np.asarray(ex.make_grid(D, 1.0, N))
+    u = rng.standard_normal((2,) + (N,) * D)
+    d = 3e-4 * np.cos(2 * np.pi * sum(x[c] for c in range(D)) + 0.3)[None] * np.asarray([[1.0], [-0.5]]).reshape((2,) + (1,) * D)
+    v = u + d
+    for L in (1.0, 2.5):
+        a, b = float(M.MSE(jnp.asarray(v), jnp.asarray(u), domain_extent=L)), float(M.fourier_MSE(jnp.asarray(v), jnp.asarray(u), domain_extent=L))
+        if not (a > 0 and abs(a - b) <= 1e-9 * a):
+            return False, f"small difference (3e-4 cos): MSE = {a!r}, fourier_MSE = {b!r} (D={D}, N={N}, L={L})"
+        a, b = float(M.nMSE(jnp.asarray(v), jnp.asarray(u), domain_extent=L)), float(M.fourier_nMSE(jnp.asarray(v), jnp.asarray(u), domain_extent=L))
+        if not (a > 0 and abs(a - b) <= 1e-9 * a):
+            return False, f"small difference (3e-4 cos): nMSE = {a!r}, fourier_nMSE = {b!r} (D={D}, N={N}, L={L})"
+    w = u + 0.3 * rng.standard_normal(u.shape)
+    for name in ("nMSE", "sMSE", "nRMSE", "nMAE", "sMAE", "sRMSE"):
+        f = getattr(M, name)
+        r0 = float(f(jnp.asarray(w), jnp.asarray(u), domain_extent=1.0))
+        for c, L in ((1e-4, 1e-2), (1e3, 50.0), (1e-6, 1.0)):
+            r1 = float(f(jnp.asarray(c * w), jnp.asarray(c * u), domain_extent=L))
+            if abs(r1 - r0) > 1e-9 * abs(r0):
+                return False, f"{name}: value {r0!r} for (u, v, L=1) but {r1!r} for ({c} u, {c} v, L={L}) (D={D}, N={N})"
+    return True, ""
+
+
+TESTS = dict(small_scales=t_small_scales, reference=t_reference, parseval=t_parseval, continuous=t_continuous, resolution=t_resolution,
              resolution_interp=t_resolution_interp, l_scaling=t_l_scaling, channel_additive=t_channel_additive, channel_split=t_channel_split,
              band_additive=t_band_additive, axioms=t_axioms, sobolev=t_sobolev, correlation=t_correlation,
              validation=t_validation, mean_metric=t_mean_metric)
@@ -569,6 +599,8 @@ def configs(deep):
 
 def witness(ctx):
     deep = ctx.deep
+    for D, N in ((1, 8), (2, 8), (3, 6)) + (((1, 16), (2, 5), (3, 4)) if deep else ()):
+        ctx.check("small_scales", dict(D=D, N=N, seed=ctx.seed + D))
     variants, unknown = all_variants()
     for name in unknown:
         ctx.notes.append(f"exponax.metrics.{name} is exported but not catalogued in harness/props/c16.py: not covered")
